@@ -385,12 +385,14 @@ class Walker:
         self.transitions = 0
         self.viol = []
         self.vkeys = set()
+        self.nbad = 0                 # every violation met (also those whose key was already recorded)
 
     def bad(self, hist, op, code, what):
         k = op[1]
         key = {"part": "seq", "op": op[0], "code": code, "key_class": self.m.key_class(k), "target": self.m.target_of(k)}
         if op[0] == "set" and code in ("wrong-value", "valid-set-raised-and-changed", "get-after-set-raised"):
             key["value"] = op[2]
+        self.nbad += 1
         kk = repr(sorted(key.items()))
         if kk in self.vkeys:
             return
@@ -406,7 +408,7 @@ class Walker:
         changed_states = []
         for op in ops:
             self.transitions += 1
-            nviol = len(self.viol)
+            nviol = self.nbad
             name, k = op[0], op[1]
             valid = k in m.vset
             kcls = m.key_class(k)
@@ -493,13 +495,13 @@ class Walker:
                         if added:
                             self.bad(hist, op, "attribute-added", f"set({k!r}, {show(v)}) added/removed: "
                                      f"{snapshot.fmt(added, 3)}")
-                if exc is not None and d and len(self.viol) == nviol:
+                if exc is not None and d and self.nbad == nviol:
                     own = [x for x in d if k in m.loc and _under(x[0], m.loc[k])]
                     if len(own) != len(d):
                         self.bad(hist, op, "valid-set-raised-and-changed", f"set({k!r}, {show(v)}) raised "
                                  f"{type(exc).__name__} and changed {snapshot.fmt(d, 3)}")
             if d:
-                if len(self.viol) == nviol and name == "set" and valid:
+                if self.nbad == nviol and name == "set" and valid:
                     changed_states.append((scratch, new_ref, op))
                 scratch = copy.deepcopy(proc)
         return changed_states
